@@ -29,6 +29,7 @@ type c11Case struct {
 	FromNow  bool      // ... or = now + FutureBound + DTime
 	RootMode int       // 0 correct, 1 stale (root of the parent without one key), 2 random
 	WithTxs  bool
+	AbsTime  *int64 `json:",omitempty"` // child timestamp given absolutely (negative / extreme values)
 }
 
 func c11Gen(rt *rapid.T) c11Case {
@@ -41,7 +42,10 @@ func c11Gen(rt *rapid.T) c11Case {
 	c.WithTxs = rapid.Bool().Draw(rt, "withTxs")
 	c.RootMode = rapid.SampledFrom([]int{0, 0, 0, 0, 1, 2}).Draw(rt, "rootMode")
 	g, eg := b.Rules.MinBlockGap, b.Rules.MinEmptyBlockGap
-	switch rapid.IntRange(0, 5).Draw(rt, "timeMode") {
+	switch rapid.IntRange(0, 6).Draw(rt, "timeMode") {
+	case 6:
+		v := rapid.SampledFrom([]int64{-1, -2, -1000, -baseTime, -1 << 62, -1<<63 + 1, -1 << 63}).Draw(rt, "abstime")
+		c.AbsTime = &v
 	case 0:
 		c.NowRel, c.FromNow = true, true
 		c.DTime = rapid.SampledFrom([]int64{-5000, -1000, -400, 400, 1000, 60000}).Draw(rt, "dfuture")
@@ -72,14 +76,16 @@ func c11Run(c c11Case, st *vstat.Stats) error {
 	} else {
 		b.Time = b.PTime + c.DTime
 	}
-	if b.Time < 0 {
-		st.Case(false, "", "skipped-negative-time")
-		return nil
+	if c.AbsTime != nil {
+		b.Time = *c.AbsTime
 	}
 	b.Height = uint64(int64(b.PHeight) + c.DHeight)
 	b.Txs = nil
 	if c.WithTxs {
-		exp := (b.Time + 999) / 1000 * 1000
+		exp := b.Time / 1000 * 1000
+		if exp < b.Time {
+			exp += 1000
+		}
 		b.Txs = []fixture.TxSpec{{Sponsor: 0, AuthStart: -1, AuthEnd: -1, Expiry: exp, MaxFee: ^uint64(0),
 			Actions: []fixture.ActSpec{{Start: -1, End: -1, Nonce: 1}}}}
 		big := uint64(1) << 50
@@ -121,6 +127,8 @@ func c11Run(c c11Case, st *vstat.Stats) error {
 	switch {
 	case b.Height != b.PHeight+1:
 		why = "height"
+	case b.Time < 0:
+		why = "too-early" // negative timestamps are below any parent timestamp
 	case b.Time < b.PTime+gap:
 		why = "too-early"
 	case len(b.Txs) == 0 && b.Time < b.PTime+b.Rules.MinEmptyBlockGap:
@@ -145,6 +153,9 @@ func c11Run(c c11Case, st *vstat.Stats) error {
 	labels := []string{lbl}
 	if b.PHeight == 0 {
 		labels = append(labels, "parent-height-0")
+	}
+	if b.Time < 0 {
+		labels = append(labels, "negative-timestamp")
 	}
 	if c.WithTxs {
 		labels = append(labels, "with-txs")
